@@ -165,7 +165,7 @@ def resolve(site: Site, text: str, want: str) -> Tuple[str, Any]:
         return ja
     if {ja[0], jb[0]} <= {"undefined", "wrongkind"}:
         return "undefined", None  # rejected under both readings
-    return "excluded", None
+    return "excluded", (ja, jb)
 
 
 # ---------------------------------------------------------------------------
@@ -183,6 +183,7 @@ class Use:
     target: Any = None
     ncand: int = 0
     labels: List[str] = field(default_factory=list)
+    allowed: List[Tuple[str, Any]] = field(default_factory=list)  # the two readings of a use of the excluded-by-rule class
 
 
 @dataclass
@@ -192,6 +193,7 @@ class Case:
     bad: Optional[Use] = None
     excluded: int = 0  # drawn reference texts that fell under the excluded-by-rule class (replaced)
     excluded_seen: int = 0  # (slot, candidate text) pairs classified as excluded-by-rule (never written)
+    ambig: Optional[Use] = None  # ONE use of the excluded-by-rule class that IS written: judged against both readings
     width_of: Dict[int, int] = field(default_factory=dict)
 
 
@@ -336,14 +338,14 @@ class _Gen:
             elif k < 84:
                 nf += 1
                 self.field_slot(m, FIELD_WORDS[(fw + nf) % len(FIELD_WORDS)])
-            elif k < 87 and self.files and [i for i in self.files[-1].items if isinstance(i, Import)]:
+            elif k < 89 and self.files and [i for i in self.files[-1].items if isinstance(i, Import)]:
                 # a FIELD named like an import name of this file: a leaf, not a scope, so `name.T` written after it in this
                 # message (or in messages nested in it) still means the imported file's T
                 imps = [i.name for i in self.files[-1].items if isinstance(i, Import)]
                 free = [x for x in imps if x not in self.declared(m)]
                 if free:
                     self.field_slot(m, free[d(st.integers(0, len(free) - 1))], base=True)
-            elif k < 90:
+            elif k < 91:
                 nf += 1
                 self.field_slot(m, FIELD_WORDS[(fw + nf) % len(FIELD_WORDS)], base=True)
             elif not self.wrong_kind_names:
@@ -550,6 +552,16 @@ def _foreign_shape(f: File, text: str, target: Any) -> bool:
     return text.count(".") >= 2
 
 
+def _first_component_is_leaf(site: Site, text: str) -> bool:
+    """The innermost scope declaring the first component of `text` declares it as a non-scope member (field, constant, alias)."""
+    first = text.split(".")[0]
+    for j in range(len(site.chain) - 1, -1, -1):
+        mem = members(site.chain[j], site.limits[j])
+        if first in mem:
+            return not is_scope(mem[first])
+    return False
+
+
 def fill_slots(draw: Any, unit: Unit, slots: List[Use], want_bad: bool, foreign_nested: bool = True) -> Case:
     d = draw
     case = Case(unit, [])
@@ -559,6 +571,7 @@ def fill_slots(draw: Any, unit: Unit, slots: List[Use], want_bad: bool, foreign_
         cands[id(f)] = candidate_texts(f)
         counts[id(f)] = name_counts(f)
     bad_slot = d(st.integers(0, len(slots) - 1)) if (want_bad and slots) else -1
+    want_ambig = (not want_bad) and d(st.integers(0, 9)) < 5
     for si, u in enumerate(slots):
         site = site_of(u.owner)
         f = site.chain[0]
@@ -585,6 +598,28 @@ def fill_slots(draw: Any, unit: Unit, slots: List[Use], want_bad: bool, foreign_
             if pool2:
                 choice = pool2[d(st.integers(0, len(pool2) - 1))]
                 outcome = resolve(site, choice[0], want)[0]
+        if choice is None and want_ambig and case.ambig is None and classified["excluded"] and d(st.integers(0, 9)) < 6:
+            # ONE use of the excluded-by-rule class is written after all: whichever reading the compiler takes, the outcome must
+            # be the outcome of ONE of the two readings (never a third definition)
+            exc = classified["excluded"]
+            # prefer texts whose first component is a LEAF (field / constant ...) of an enclosing message
+            leafy = [x for x in exc if _first_component_is_leaf(site, x[0])]
+            pool_a = leafy if leafy and d(st.integers(0, 9)) < 7 else exc
+            t, both = pool_a[d(st.integers(0, len(pool_a) - 1))]
+            u.text, u.outcome, u.target = t, "ambiguous", None
+            u.allowed = list(both)
+            u.ncand = cnt.get(t.split(".")[-1], 0)
+            okr = [r for r in both if r[0] == "ok"]
+            if u.kind == "type":
+                u.holder.text_ = t
+                u.holder.target = okr[-1][1] if okr else TBase("uint", 8)
+            else:
+                u.holder.cap_text = t
+                u.holder.cap = okr[-1][1].value if okr else 1
+                u.holder.cap_const = okr[-1][1] if okr else None
+            u.labels = ["ambig:leaf_first_component" if _first_component_is_leaf(site, t) else "ambig:scope_lacks_rest"]
+            case.ambig = u
+            continue
         if choice is None and d(st.integers(0, 9)) < 3:
             # free draw over ALL texts: what falls under the excluded class is counted and replaced
             allc = [(t, "ok") for (t, _) in ok] + [(t, "excluded") for (t, _) in classified["excluded"]]
